@@ -1,4 +1,5 @@
 import ChiProofs.Lemmas.C06Aux
+import ChiProofs.Props.C05
 
 /-!
 # C06 — samplers draw from the distribution their log-likelihood scores
@@ -981,6 +982,36 @@ theorem C06_hetero_transform_legacy_counterexample :
     heteroPsi .legacy 2 5 th eta 0 0 ≠ eta 0 0 ∧ heteroPsiRows .legacy 2 5 ≠ 5
       ∧ heteroPsi .repaired 2 5 th eta 0 0 = eta 0 0 ∧ heteroPsiRows .repaired 2 5 = 5 := by
   simp [heteroPsi, heteroPsiRows]
+
+/-! ## the score of several sampled rows -/
+
+/-- C06 (the score of SEVERAL sampled rows): for `nS` rows, each with its own (covariate-shifted)
+    parameters `th r`, the log-likelihood of the rows together is the logarithm of the product over rows
+    and dimensions of the densities of the entry laws (`C06_pop_gaussian_law`, `C06_pop_lognormal_law`,
+    `C06_truncGauss_density`, standard normal for the non-centred models) — the density of the product
+    law of `C06_composed_joint_law`, with the truncation normalisation of EVERY row counted exactly
+    once. (Values: the per-individual theorems of C05.) -/
+theorem C06_sample_joint_scored (nS nDim : Nat) (th : Nat → Nat → Nat → ℝ) (x : Nat → Nat → ℝ)
+    (hs : ∀ r d, r < nS → d < nDim → 0 < th r 1 d) :
+    popLL (.gauss true) nS nDim th x
+        = .val (isum2 nS nDim fun r d =>
+            Real.log (gaussianPDFReal (th r 0 d) (sqv (th r 1 d)) (x r d)))
+    ∧ ((∀ r d, r < nS → d < nDim → 0 < x r d) →
+        popLL (.logn true) nS nDim th x
+          = .val (isum2 nS nDim fun r d =>
+              Real.log (logNormalPDF (th r 0 d) (sqv (th r 1 d)) (x r d))))
+    ∧ ((∀ r d, r < nS → d < nDim → 0 ≤ x r d) →
+        popLL .trunc nS nDim th x
+          = .val (isum2 nS nDim fun r d =>
+              Real.log (c06TruncGaussPDF (th r 0 d) (th r 1 d) (x r d))))
+    ∧ popLL (.gauss false) nS nDim th x
+        = .val (isum2 nS nDim fun r d => Real.log (gaussianPDFReal 0 1 (x r d)))
+    ∧ popLL (.logn false) nS nDim th x
+        = .val (isum2 nS nDim fun r d => Real.log (gaussianPDFReal 0 1 (x r d))) :=
+  ⟨C05_gauss_is_logpdf nS nDim th x hs,
+   fun hx => C05_logn_is_logpdf nS nDim th x hs hx,
+   fun hx => C05_trunc_is_logpdf nS nDim th x hs hx,
+   (C05_noncentred_is_logpdf nS nDim th x).1, (C05_noncentred_is_logpdf nS nDim th x).2⟩
 
 /-! ## `get_mean_and_std` -/
 
